@@ -359,3 +359,14 @@ def t_validator(world):
 _t1v = tasks
 def tasks(tier):
     return _t1v(tier) + [('validator', t_validator)]
+
+
+# ---------------------------------------------------------------- "every ACCEPTED configuration has a well-defined curve": the acceptance gate itself. Shared with C13.a / C13.d: BankConfig::validate
+# consults the curve validator on every accepting path, and every bank initialiser passes the bank it wrote through BankConfig::validate (seed C18-5 moved the curve
+# validation out of BankConfig::validate into Bank::configure, so new banks, migrate_curve and propagate_staked_settings accepted any curve)
+_t18w = tasks
+def tasks(tier):
+    import specs.C13 as C13
+    return _t18w(tier) + [('config_validate', renamed(C13.t_validate, 'C13.a', 'C18.w'))] + \
+        [(f'add_bank:{n}', renamed(C13.mk_add_bank(n), 'C13.d.', 'C18.w.')) for n in C13.ADD_BANK]
+WORLD = ('marginfi', 'typecrate', 'drift')
